@@ -20,7 +20,7 @@ inductive Res (α : Type) where
   | ok (a : α)
   | err (e : Err)
   | panic (site : String)
-  deriving Repr
+  deriving Repr, DecidableEq
 
 namespace Res
 @[inline] def bind {α β : Type} (x : Res α) (f : α → Res β) : Res β :=
